@@ -103,7 +103,7 @@ def run_virtual_case(case) -> Result:
     nontrivial = attempts_model >= 2 and any(k not in ("reply",) for k in kinds[:attempts_model])
     agent = vagent.Agent({OID: (vber.T_OCTETS, b"value")})
     if via == "client":
-        reply = lambda req: agent.handle(req)  # noqa
+        reply = lambda req: agent.handle_or_timeout(req)  # noqa
     else:
         reply = REPLY
 
